@@ -11,12 +11,12 @@ for d in $wt/mutations/*/; do
   suite=$(cd $W && cargo test --offline 2>&1 | grep -E "^test result|^error" )
   suite_ok=$(echo "$suite" | grep -c "test result: ok"); suite_bad=$(echo "$suite" | grep -cE "FAILED|^error")
   cp $demo $W/tests/$tname.rs
-  with=$(cd $W && cargo test --offline --test $tname 2>&1 | grep -E "^test result|^error" | head -1)
+  with=$(cd $W && cargo test --offline --test $tname 2>&1 | grep -E "^test result|^error|signal: 6|SIGABRT" | head -1 | sed "s#.*signal: 6.*#test result: FAILED (process aborted, SIGABRT)#")
   git -C $W checkout -q -- .
   without=$(cd $W && cargo test --offline --test $tname 2>&1 | grep -E "^test result|^error" | head -1)
   rm -f $W/tests/$tname.rs
   okflag=0
-  if [ "$suite_ok" -ge 7 ] && [ "$suite_bad" -eq 0 ] && echo "$with" | grep -q FAILED && echo "$without" | grep -q "ok\."; then okflag=1; fi
+  if [ "$suite_ok" -ge 7 ] && [ "$suite_bad" -eq 0 ] && echo "$with" | grep -qE "FAILED|test failed" && echo "$without" | grep -q "ok\."; then okflag=1; fi
   echo "INGEST $id suite_ok=$suite_ok suite_bad=$suite_bad with=[$with] without=[$without] CONFIRMED=$okflag"
   if [ $okflag -eq 1 ]; then
     mkdir -p $dst; cp $d/patch.diff $dst/patch.diff; cp $demo $dst/; cp $d/README.md $dst/AGENT_README.md 2>/dev/null
